@@ -11,7 +11,7 @@ import json
 import common
 from common import coq_N, coq_list
 
-IMPORTS = 'From XV Require Import Base Wildcard Attrs.'
+IMPORTS = 'From XV Require Import Base Wildcard Attrs AttrValues.'
 TNS, FNS, GNS, UNS = 'urn:t', 'urn:f', 'urn:g', 'urn:u'
 NSCODE = {'': 0, TNS: 5, FNS: 6, GNS: 7, UNS: 8}
 # pool of attribute names: (namespace, local)
@@ -229,8 +229,9 @@ def model_terms(case):
     terms = []
     for inst in case['instances']:
         attrs = coq_list(['(%s, %s)' % (coq_name(n), coq_N(LEXCODE[v])) for n, v in inst['attrs']])
-        terms.append('(map kind (validate_attrs ENV %s %s), filled %s %s %s %s)' % (
-            g, attrs, g, common.coq_bool(inst['use_defaults']), common.coq_bool(inst['fill_missing']), attrs))
+        terms.append('(map kind (validate_attrs ENV %s %s), filled %s %s %s %s, filled_values %s %s %s %s)' % (
+            g, attrs, g, common.coq_bool(inst['use_defaults']), common.coq_bool(inst['fill_missing']), attrs,
+            g, common.coq_bool(inst['use_defaults']), common.coq_bool(inst['fill_missing']), attrs))
     return terms
 
 
@@ -313,7 +314,8 @@ def evaluate(ctx, cases):
         if 'exc' in o:
             ctx.violation('validation raised %s on %s' % (o['exc'], xml), rep)
             continue
-        mk, mfilled = m
+        mk, mfilled, mvals = m
+        mvals = {(a, b): (v[1] if isinstance(v, tuple) and v[0] == 'Some' else None if v in (None, 'None') else v) for a, b, v in mvals}
         mkinds = sorted({KIND[x] for x in mk})
         want = spec_valid(c['tmpl'], attrs)
         ctx.count(('i', xml, json.dumps(c['tmpl'], sort_keys=True), c['version'], inst['use_defaults'], inst['fill_missing']),
@@ -341,6 +343,11 @@ def evaluate(ctx, cases):
                     continue
                 fixed, default = eff(d)
                 lexv = fixed if fixed is not None else default if (default is not None and inst['use_defaults']) else None
+                # the model's value for the absent attribute (AttrValues.filled_values: the fixed value wins over a default)
+                mlex = mvals.get((NSCODE[n[0]], LOCODE[n[1]]), 'absent')
+                if mlex != (None if lexv is None else LEXCODE[lexv]):
+                    problems.append(('aux', 'harness spec and model disagree on the value of the absent attribute %s: %r vs %r'
+                                     % (key_name(n), lexv, mlex)))
                 ty = decl_type(d)
                 exp = None if lexv is None else (canon(ty, lexv) if ty != 'xs:string' else lexv)
                 got = o.get('vals', {}).get(key_name(n))
